@@ -3,22 +3,22 @@ package main
 // The rule sets of every claimed property (quick tier, and the additional rules of the
 // thorough tier). Kept in one table so that the claim texts in props.go stay readable.
 var propRuleTable = map[string][2][]string{
-	"C01": {{"R-MEMO-KEY", "R-EXHAUSTIVE", "R-UNFOLDED-POLARITY", "R-QUANTIFIER-LOOP"}, {}},
-	"C02": {{"R-DUP-FIRST", "R-GC-PROPAGATES", "R-SUBST-CONTRA"}, {}},
-	"C03": {{"R-COPY-PER-USE", "R-DUP-FIRST", "R-SPAWN-OWNERSHIP", "R-BINDERS"}, {}},
-	"C04": {{"R-BINDERS", "R-SUBST-CONTRA", "R-EXHAUSTIVE"}, {}},
-	"C05": {{"R-AXIOM-EMPTY", "R-CONSUME-DELETES", "R-BRANCH-COPY", "R-STRUCT-GATES", "R-FRESH-BINDER", "R-CUT-SPLIT", "R-MULTI-CONTRACT", "R-MODE-TABLES"}, {}},
+	"C01": {{"R-MEMO-KEY", "R-EXHAUSTIVE", "R-UNFOLDED-POLARITY", "R-QUANTIFIER-LOOP", "R-MUST-CHECK", "R-FUNC-KEY"}, {}},
+	"C02": {{"R-DUP-FIRST", "R-GC-PROPAGATES", "R-SUBST-CONTRA", "R-NAME-EQ"}, {}},
+	"C03": {{"R-COPY-PER-USE", "R-COPY-DEEP", "R-DUP-FIRST", "R-SPAWN-OWNERSHIP", "R-BINDERS", "R-NAME-EQ"}, {}},
+	"C04": {{"R-BINDERS", "R-SUBST-CONTRA", "R-NAME-EQ", "R-EXHAUSTIVE"}, {}},
+	"C05": {{"R-AXIOM-EMPTY", "R-CONSUME-DELETES", "R-BRANCH-COPY", "R-STRUCT-GATES", "R-FRESH-BINDER", "R-CUT-SPLIT", "R-MULTI-CONTRACT", "R-MUST-CHECK", "R-CASE-EXACT", "R-MODE-TABLES"}, {}},
 	"C06": {{"R-INDEPENDENCE", "R-SHIFT-LEGAL", "R-MODE-TABLES", "R-UNSET-REJECTED"}, {}},
-	"C07": {{"R-QUANTIFIER-LOOP", "R-MEMO-KEY", "R-BRANCH-COPY", "R-FRESH-BINDER", "R-CUT-SPLIT"}, {}},
+	"C07": {{"R-MUST-CHECK", "R-CASE-EXACT", "R-QUANTIFIER-LOOP", "R-MEMO-KEY", "R-BRANCH-COPY", "R-FRESH-BINDER", "R-CUT-SPLIT", "R-FUNC-KEY"}, {}},
 	"C08": {{"R-MEMO-KEY", "R-QUANTIFIER-LOOP", "R-UNFOLD-GUARD", "R-CONTRACTIVE-GATE"}, {}},
 	"C09": {{"R-PHASE-STOP", "R-NO-DEFERRED-SUCCESS", "R-UNFOLDED-POLARITY", "R-ERR-BEFORE-USE", "R-UNFOLD-GUARD", "R-CONTRACTIVE-GATE", "R-UNSET-REJECTED"}, {}},
 	"C10": {{"R-DEAD-SET", "R-REC-COMPLETE", "R-MODE-UNIFORM", "R-CONTRACTIVE-GATE", "R-UNSET-REJECTED", "R-SHIFT-LEGAL"}, {}},
 	"C11": {{"R-LOOP-EOF", "R-COMMENT-DFA", "R-GENERATED", "R-PARSE-ERR"}, {}},
 	"C12": {{"R-END-MARKER", "R-COMMENT-DFA", "R-GENERATED", "R-KIND-EXH", "R-PARSE-ERR"}, {}},
-	"C13": {{"R-ATOMIC", "R-SPAWN-OWNERSHIP", "R-COPY-PER-USE", "R-MONITOR-COPY", "R-GLOBALS"}, {}},
-	"C14": {{"R-BINDERS", "R-SUBST-CONTRA", "R-FRESH-BINDER", "R-COPY-PER-USE"}, {}},
+	"C13": {{"R-ATOMIC", "R-SPAWN-OWNERSHIP", "R-COPY-PER-USE", "R-COPY-DEEP", "R-MONITOR-COPY", "R-GLOBALS"}, {}},
+	"C14": {{"R-BINDERS", "R-SUBST-CONTRA", "R-NAME-EQ", "R-FRESH-BINDER", "R-COPY-PER-USE", "R-COPY-DEEP"}, {}},
 	"C15": {{"R-PRINT-GRAMMAR", "R-PRINT-SLOTS", "R-GENERATED"}, {}},
-	"C16": {{"R-REC-COMPLETE", "R-UNSET-REJECTED", "R-MODE-UNIFORM", "R-SPELLINGS"}, {}},
+	"C16": {{"R-INFER-PURE", "R-REC-COMPLETE", "R-UNSET-REJECTED", "R-MODE-UNIFORM", "R-SPELLINGS"}, {}},
 	"C17": {{"R-MODE-TABLES", "R-SPELLINGS"}, {}},
 	"C18": {{"R-CLI-GATE"}, {}},
 	"C19": {{"R-GLOBALS", "R-FRESH-PARSE", "R-REINIT", "R-COPY-PER-USE", "R-PHASE-STOP"}, {}},
